@@ -873,6 +873,263 @@ def hasUnseparatedScalar (bs : List Nat) : Bool :=
 termination_by bs.length
 decreasing_by omega
 
+/-! ## The detection trial (`json::input_matches`): `IgnoredAny` -/
+
+/-- `ignore_integer` + `ignore_decimal` + `ignore_exponent`, after an optional
+`-` has been eaten.  Same grammar as `lexNumber`, but no range check, and a
+missing digit is `invalidNumber` even at end of input (`next_char_or_null`). -/
+def ignoreNumber (bs : List Nat) : Except Err (List Nat) :=
+  match bs with
+  | [] => .error .invalidNumber
+  | b :: rest =>
+    let afterInt : Except Err (List Nat) :=
+      if b = 0x30 then
+        match rest with
+        | c :: _ => if isDigit c then .error .invalidNumber else .ok rest
+        | [] => .ok rest
+      else if isDigit b then .ok (takeDigits rest).2
+      else .error .invalidNumber
+    match afterInt with
+    | .error e => .error e
+    | .ok r1 =>
+      let exponent (r : List Nat) : Except Err (List Nat) :=
+        -- `r` starts after the `e`
+        match (expSign r).2 with
+        | [] => .error .invalidNumber
+        | c :: r3 => if isDigit c then .ok (takeDigits r3).2 else .error .invalidNumber
+      match r1 with
+      | [] => .ok []
+      | c :: r =>
+        if c = 0x2E then
+          match takeDigits r with
+          | ([], _) => .error .invalidNumber
+          | (_ :: _, r2) =>
+            match r2 with
+            | [] => .ok []
+            | e :: r3 => if e = 0x65 ∨ e = 0x45 then exponent r3 else .ok (e :: r3)
+        else if c = 0x65 ∨ c = 0x45 then exponent r
+        else .ok (c :: r)
+
+/-- `ignore_escape` after the backslash: a `\u` escape only needs four hex
+digits (surrogates are not checked). -/
+def ignoreEscape : List Nat → Except Err (List Nat)
+  | [] => .error .eofString
+  | e :: rest =>
+    if e = 0x22 ∨ e = 0x5C ∨ e = 0x2F ∨ e = 0x62 ∨ e = 0x66 ∨ e = 0x6E ∨ e = 0x72 ∨ e = 0x74 then .ok rest
+    else if e = 0x75 then
+      match hexEscape rest with
+      | .ok (_, r) => .ok r
+      | .error err => .error err
+    else .error .invalidEscape
+
+theorem ignoreEscape_length {bs rest : List Nat} (h : ignoreEscape bs = .ok rest) :
+    rest.length < bs.length := by
+  unfold ignoreEscape at h
+  split at h
+  · simp at h
+  · split at h
+    · simp at h; subst h; simp
+    · split at h
+      · split at h
+        · rename_i n r hh
+          simp at h; subst h
+          have := hexEscape_length hh; simp; omega
+        · simp at h
+      · simp at h
+
+/-- `ignore_str` after the opening quote: no UTF-8 validation (neither in
+`SliceRead` nor in `IoRead`). -/
+def ignoreStr (bs : List Nat) : Except Err (List Nat) :=
+  match bs with
+  | [] => .error .eofString
+  | b :: rest =>
+    if b = 0x22 then .ok rest
+    else if b = 0x5C then
+      match h : ignoreEscape rest with
+      | .error e => .error e
+      | .ok r =>
+        have : r.length < (b :: rest).length := by
+          have := ignoreEscape_length h; simp; omega
+        ignoreStr r
+    else if b < 0x20 then .error .controlChar
+    else ignoreStr rest
+termination_by bs.length
+
+theorem ignoreStr_length : ∀ {bs rest : List Nat}, ignoreStr bs = .ok rest → rest.length < bs.length := by
+  intro bs
+  fun_induction ignoreStr bs <;> intro rest h
+  case case2 => simp at h; subst h; simp
+  case case4 rest0 r hesc _ hlt ih =>
+    have := ih h; simp at *; omega
+  case case6 b0 rest0 _ _ _ ih =>
+    have := ih h; simp; omega
+  all_goals simp at h
+
+theorem ignoreNumber_length {bs rest : List Nat} (h : ignoreNumber bs = .ok rest) :
+    rest.length < bs.length := by
+  unfold ignoreNumber at h
+  split at h
+  · simp at h
+  · rename_i b rest0
+    simp only at h
+    split at h
+    · simp at h
+    · rename_i r1 h1
+      have hr1 : r1.length ≤ rest0.length := by
+        split at h1
+        · split at h1
+          · split at h1 <;> simp at h1
+            subst h1; simp
+          · simp at h1; subst h1; simp
+        · split at h1
+          · simp at h1; subst h1; exact takeDigits_snd_le rest0
+          · simp at h1
+      have hexp : ∀ r out, (match (expSign r).2 with
+          | [] => (.error .invalidNumber : Except Err (List Nat))
+          | c :: r3 => if isDigit c then .ok (takeDigits r3).2 else .error .invalidNumber) = .ok out →
+          out.length ≤ r.length := by
+        intro r out ho
+        have hs := expSign_length r
+        split at ho
+        · simp at ho
+        · rename_i c r3 heq
+          split at ho
+          · simp at ho; subst ho
+            have := takeDigits_snd_le r3
+            rw [heq] at hs; simp at hs; omega
+          · simp at ho
+      split at h
+      · simp at h; subst h; simp
+      · rename_i c r
+        split at h
+        · split at h
+          · simp at h
+          · rename_i d ds r2 heq
+            have h2 := takeDigits_snd_le r
+            rw [heq] at h2
+            split at h
+            · simp at h; subst h; simp
+            · rename_i e r3
+              split at h
+              · have := hexp _ _ h; simp at *; omega
+              · simp at h; subst h; simp at *; omega
+        · split at h
+          · have := hexp _ _ h; simp at *; omega
+          · simp at h; subst h; simp at *; omega
+
+mutual
+  /-- One turn of `ignore_value`'s outer loop: a value is expected; `stk` holds
+  the open brackets (`scratch` + `enclosing`, innermost first).  Result: the
+  input after the complete outermost value. -/
+  def igValue (stk : List Nat) (bs : List Nat) : Except Err (List Nat) :=
+    match h : skipWs bs with
+    | [] => .error .eofValue
+    | b :: r =>
+      have hle : r.length < bs.length := by
+        have := skipWs_length_le bs; rw [h] at this; simp only [List.length_cons] at this; omega
+      -- a scalar is done: back to the enclosing bracket, or finished
+      let done (r' : List Nat) (_ : r'.length ≤ r.length) : Except Err (List Nat) :=
+        match stk with
+        | [] => .ok r'
+        | _ :: _ => igAfter stk r' true
+      match classify b with
+      | .n =>
+        match hi : ident [0x75, 0x6C, 0x6C] r with
+        | .error e => .error e
+        | .ok r' => done r' (ident_length hi)
+      | .t =>
+        match hi : ident [0x72, 0x75, 0x65] r with
+        | .error e => .error e
+        | .ok r' => done r' (ident_length hi)
+      | .f =>
+        match hi : ident [0x61, 0x6C, 0x73, 0x65] r with
+        | .error e => .error e
+        | .ok r' => done r' (ident_length hi)
+      | .minus =>
+        match hn : ignoreNumber r with
+        | .error e => .error e
+        | .ok r' => done r' (Nat.le_of_lt (ignoreNumber_length hn))
+      | .digit =>
+        match hn : ignoreNumber (b :: r) with
+        | .error e => .error e
+        | .ok r' => done r' (by have := ignoreNumber_length hn; simp only [List.length_cons] at this; omega)
+      | .quote =>
+        match hs : ignoreStr r with
+        | .error e => .error e
+        | .ok r' => done r' (Nat.le_of_lt (ignoreStr_length hs))
+      | .lbrack => igAfter (0x5B :: stk) r false
+      | .lbrace => igAfter (0x7B :: stk) r false
+      | .other => .error .expectedValue
+  termination_by (bs.length, 0)
+  decreasing_by
+    all_goals simp_wf
+    all_goals (apply Prod.Lex.left; omega)
+
+  /-- `ignore_value`'s inner loop and what follows it, for the innermost open
+  bracket `frame`: closing brackets are eaten (popping), a `,` is eaten when
+  one may stand here, then — inside an object — a key and its `:`; after that a
+  value is expected. -/
+  def igAfter (stk : List Nat) (bs : List Nat) (acceptComma : Bool) : Except Err (List Nat) :=
+    match stk with
+    | [] => .ok bs  -- not reached: `igValue` and the pop below stop at the empty stack
+    | frame :: up =>
+      match h : skipWs bs with
+      | [] => .error (if frame = 0x5B then .eofList else .eofObject)
+      | c :: r =>
+        have hle : r.length < bs.length := by
+          have := skipWs_length_le bs; rw [h] at this; simp only [List.length_cons] at this; omega
+        -- after the inner loop: the key of an object entry, then the value
+        let next (bs' : List Nat) (_ : bs'.length ≤ r.length + 1) : Except Err (List Nat) :=
+          if frame = 0x7B then
+            match hk : skipWs bs' with
+            | [] => .error .eofObject
+            | q :: r1 =>
+              have hlek : r1.length < bs'.length := by
+                have := skipWs_length_le bs'; rw [hk] at this; simp only [List.length_cons] at this; omega
+              if q ≠ 0x22 then .error .keyMustBeString else
+              match hs : ignoreStr r1 with
+              | .error e => .error e
+              | .ok r2 =>
+                have h2 : r2.length < r1.length := ignoreStr_length hs
+                match hc : skipWs r2 with
+                | [] => .error .eofObject
+                | c3 :: r3 =>
+                  have hle3 : r3.length < r2.length := by
+                    have := skipWs_length_le r2; rw [hc] at this; simp only [List.length_cons] at this; omega
+                  if c3 ≠ 0x3A then .error .expectedColon else igValue (frame :: up) r3
+          else igValue (frame :: up) bs'
+        if c = 0x2C ∧ acceptComma then next r (Nat.le_succ _)
+        else if (c = 0x5D ∧ frame = 0x5B) ∨ (c = 0x7D ∧ frame = 0x7B) then
+          match up with
+          | [] => .ok r
+          | _ :: _ => igAfter up r true
+        else if acceptComma then
+          .error (if frame = 0x5B then .expectedListCommaOrEnd else .expectedObjectCommaOrEnd)
+        else next (c :: r) (by simp)
+  termination_by (bs.length, 1)
+  decreasing_by
+    all_goals simp_wf
+    · apply Prod.Lex.left; omega
+    · rename_i hb
+      rcases Nat.lt_or_eq_of_le (show bs'.length ≤ bs.length by omega) with h' | h'
+      · apply Prod.Lex.left; exact h'
+      · rw [h']; apply Prod.Lex.right; omega
+    · apply Prod.Lex.left; omega
+end
+
+/-- `ignore_value`: the input after the first value. -/
+def ignoreValue (bs : List Nat) : Except Err (List Nat) := igValue [] bs
+
+/-- `json::input_matches` on a reader: `IgnoredAny::deserialize` succeeded. -/
+def trialReader (bs : List Nat) : Bool :=
+  match ignoreValue bs with
+  | .ok _ => true
+  | .error _ => false
+
+/-- `json::input_matches` on a slice: `str::from_utf8` first (not UTF-8 ⇒ no
+match), then the same trial. -/
+def trialSlice (bs : List Nat) : Bool := validUtf8 bs && trialReader bs
+
 /-! ## Helpers for the driver and the property statements -/
 
 mutual
